@@ -21,10 +21,11 @@ Definition server_sweep (e : env) (T : Z) (c : conn) (now : Z) : conn * list out
   let '(c', o) := server_tick e c now in
   (c', o, sweep_drops T c now).
 
-(* tau: longest time between two update() calls of one side; d: longest time a datagram (any copy
-   of it) takes to be shown to the peer; T: the server's connection_timeout.  The client's 5 s are
-   in the code (Conn.client_update). *)
-Record tparams := { tp_tau : Z; tp_d : Z; tp_T : Z }.
+(* tau: longest time between two update() calls of one side; d: longest time a datagram takes to be
+   shown to the peer (its first copy); life: longest time any further copy of it is still around
+   (d <= life); T: the server's connection_timeout.  The client's 5 s are in the code
+   (Conn.client_update). *)
+Record tparams := { tp_tau : Z; tp_d : Z; tp_life : Z; tp_T : Z }.
 
 (* what a receive opportunity yields *)
 Inductive tsrc :=
@@ -120,14 +121,14 @@ Definition trun (e : env) (P : tparams) (n : tnet) (vs : list tev) : tnet := fol
    - no event happens later than d after the emission of a datagram that has not been shown to the
      peer yet (so every datagram is shown to the peer at most d after its emission: no loss);
    - what a receive opportunity yields is nothing, or a copy of a datagram the peer emitted at most
-     d ago (any of them, any number of times: duplication and reordering), or bytes that the
+     `life` ago (any of them, any number of times: duplication and reordering), or bytes that the
      receiver cannot open under its session key (junk; for the cryptographic reading see Net.wf_ev).
      Bytes whose 20-byte header does not parse (Conn.RxBadHeader: the exception escapes
      UdpClient.update) are not part of a working network. *)
-Definition src_ok (key : option Z) (w : wdir) (d now : Z) (s : tsrc) : Prop :=
+Definition src_ok (key : option Z) (w : wdir) (life now : Z) (s : tsrc) : Prop :=
   match s with
   | SNone => True
-  | SPeer i => exists t dg, wd_lookup w i = Some (t, dg) /\ now <= t + d
+  | SPeer i => exists t dg, wd_lookup w i = Some (t, dg) /\ now <= t + life
   | SJunk dg _ => forall ms, open_dgram key dg <> Ok ms
   end.
 
@@ -138,8 +139,8 @@ Definition tok (P : tparams) (n : tnet) (v : tev) : Prop :=
   t_clk n <= now /\ now - t_tickC n <= tp_tau P /\ now - t_tickS n <= tp_tau P
   /\ on_time (t_cs n) (tp_d P) now /\ on_time (t_sc n) (tp_d P) now
   /\ match v with
-     | TClient _ s => src_ok (c_key (t_cli n)) (t_sc n) (tp_d P) now s
-     | TSrvRecv _ s => src_ok (c_key (t_srv n)) (t_cs n) (tp_d P) now s
+     | TClient _ s => src_ok (c_key (t_cli n)) (t_sc n) (tp_life P) now s
+     | TSrvRecv _ s => src_ok (c_key (t_srv n)) (t_cs n) (tp_life P) now s
      | TSrvSweep _ => True
      end.
 
@@ -186,14 +187,14 @@ Definition tnet0 (cli srv : conn) (t0 : Z) : tnet :=
   {| t_cli := cli; t_srv := srv; t_swept := false; t_clk := t0; t_tickC := t0; t_tickS := t0;
      t_cs := wd0 (c_seq_send cli) (base_time cli t0); t_sc := wd0 (c_seq_send srv) (base_time srv t0) |}.
 
-(* the exact inequalities the two time-out rules need, and "fewer than half the sequence ring in
-   flight" (consecutive keep-alives are more than kmax apart, so at most d / (kmax + 1) + 1 of them
-   are emitted within d) *)
+(* the exact inequalities the two time-out rules need, and "fewer than half the sequence ring alive"
+   (consecutive keep-alives are more than kmax apart, so at most life / (kmax + 1) + 1 of them are
+   emitted within `life`) *)
 Definition params_ok (P : tparams) (cli srv : conn) : Prop :=
-  0 <= tp_d P /\ 0 <= tp_tau P /\ 0 <= kmax cli /\ 0 <= kmax srv
+  0 <= tp_d P /\ tp_d P <= tp_life P /\ 0 <= tp_tau P /\ 0 <= kmax cli /\ 0 <= kmax srv
   /\ kmax cli + tp_tau P + tp_d P < tp_T P          (* server: removed when now - last_recv >= T *)
   /\ kmax srv + tp_tau P + tp_d P <= 5 * TICKS      (* client: DROPPED when now > last_recv + 5 s *)
-  /\ tp_d P <= (HALF - 1) * (kmax cli + 1) /\ tp_d P <= (HALF - 1) * (kmax srv + 1).
+  /\ tp_life P <= (HALF - 1) * (kmax cli + 1) /\ tp_life P <= (HALF - 1) * (kmax srv + 1).
 
 (* ---------- what is claimed ---------- *)
 Definition pair_up (k : Z) (n : tnet) : Prop :=
@@ -222,10 +223,10 @@ Definition ka_dgram (k : Z) (dg : dgram) : Prop :=
 (* ---------- executable versions of the hypotheses (Proofs/IdleP.v: each implies its Prop) ----------
    used by the non-vacuity examples and by the correspondence unit, which reports for every
    schedule the harness runs on the real endpoints whether it is inside the theorems' hypotheses *)
-Definition src_okb (key : option Z) (w : wdir) (d now : Z) (s : tsrc) : bool :=
+Definition src_okb (key : option Z) (w : wdir) (life now : Z) (s : tsrc) : bool :=
   match s with
   | SNone => true
-  | SPeer i => match wd_lookup w i with Some (t, _) => now <=? t + d | None => false end
+  | SPeer i => match wd_lookup w i with Some (t, _) => now <=? t + life | None => false end
   | SJunk dg _ => match open_dgram key dg with Ok _ => false | Err _ => true end
   end.
 
@@ -236,8 +237,8 @@ Definition tokb (P : tparams) (n : tnet) (v : tev) : bool :=
   (t_clk n <=? now) && (now - t_tickC n <=? tp_tau P) && (now - t_tickS n <=? tp_tau P)
   && on_timeb (t_cs n) (tp_d P) now && on_timeb (t_sc n) (tp_d P) now
   && match v with
-     | TClient _ s => src_okb (c_key (t_cli n)) (t_sc n) (tp_d P) now s
-     | TSrvRecv _ s => src_okb (c_key (t_srv n)) (t_cs n) (tp_d P) now s
+     | TClient _ s => src_okb (c_key (t_cli n)) (t_sc n) (tp_life P) now s
+     | TSrvRecv _ s => src_okb (c_key (t_srv n)) (t_cs n) (tp_life P) now s
      | TSrvSweep _ => true
      end.
 
@@ -267,6 +268,6 @@ Definition establishedb (k t0 : Z) (cli srv : conn) : bool :=
   idle_epb k cli && idle_epb k srv && in_syncb cli srv && in_syncb srv cli && heardb cli srv t0 && heardb srv cli t0.
 
 Definition params_okb (P : tparams) (cli srv : conn) : bool :=
-  (0 <=? tp_d P) && (0 <=? tp_tau P) && (0 <=? kmax cli) && (0 <=? kmax srv)
+  (0 <=? tp_d P) && (tp_d P <=? tp_life P) && (0 <=? tp_tau P) && (0 <=? kmax cli) && (0 <=? kmax srv)
   && (kmax cli + tp_tau P + tp_d P <? tp_T P) && (kmax srv + tp_tau P + tp_d P <=? 5 * TICKS)
-  && (tp_d P <=? (HALF - 1) * (kmax cli + 1)) && (tp_d P <=? (HALF - 1) * (kmax srv + 1)).
+  && (tp_life P <=? (HALF - 1) * (kmax cli + 1)) && (tp_life P <=? (HALF - 1) * (kmax srv + 1)).
